@@ -23,7 +23,8 @@
     13 reser    [compressed]      -> bytes of serialize() / serialize_compressed() of the compact slot; [-996] if none
     14 rt       [ordered; compressed] -> c := compact(ordered); b := c.serialize[_compressed](); d := deserialize(b);
                                      [L; dump c (L ints); dump d (L ints); bytes of d.serialize[_compressed]() ... ; -2; b ...];
-                                     d is kept in the compact slot; [-1] for unordered after a rebuild *)
+                                     d is kept in the compact slot; [-1] for unordered after a rebuild
+    15 rt_slot  [compressed]      -> the same fork applied to the compact slot c (a deserialized value): [-996] if none *)
 From DS Require Import Base.Prelude Base.FloatBits Base.ThetaLib Base.BitExp Base.Oracles Model.Theta Model.ThetaCodec Spec.ThetaLayout.
 From Coq Require Import Floats FMapPositive.
 Open Scope Z_scope.
@@ -101,6 +102,25 @@ Definition step_codec (st : cstate) (o : zop) : option cstate * list Z :=
             | _ => (None, PANIC)
             end
           else (Some (s, None), [-1])
+  | 15 => let compressed := negb (nth 0 a 0 =? 0) in
+          match slot with
+          | None => (Some st, [-996])
+          | Some c =>
+              match ser_of compressed c with
+              | Ok b =>
+                  match c_deserialize sh b with
+                  | Ok d =>
+                      match ser_of compressed d with
+                      | Ok b2 => (Some (s, Some d),
+                                  Z.of_nat (length (ob_csk c)) :: ob_csk c ++ ob_csk d ++ map Nz b2 ++ [-2] ++ map Nz b)
+                      | _ => (None, PANIC)
+                      end
+                  | Err => (Some (s, None), ERR)
+                  | Stuck => (None, PANIC)
+                  end
+              | _ => (None, PANIC)
+              end
+          end
   | _ => (None, PANIC)
   end.
 
@@ -323,15 +343,17 @@ Definition size_extra (cfg : list Z) (st : ospec) (code : Z) (a ob : list Z) : b
 Definition size_ok (c : case) : bool :=
   track_from false size_extra (c_cfg c) (mkO None 0 hs_empty 0 hs_empty 0 false) (c_ops c) (c_obs c).
 
-(* ---- C11: op 14 forks the compact sketch through serialize / deserialize: the copy must answer
-   every query as the original and re-serialize to the same bytes ---- *)
+(* ---- C11: ops 14 / 15 fork a compact sketch (compact(ordered) of the sketch / the deserialized value in
+   the compact slot) through serialize / deserialize: the copy must answer every query as the original
+   and re-serialize to the same bytes ---- *)
 Fixpoint before_marker (l : list Z) : list Z :=
   match l with [] => [] | x :: r => if (x =? -2)%Z then [] else x :: before_marker r end.
 
 Fixpoint rt_from (ops : list zop) (obs : list (list Z)) : bool :=
   match ops, obs with
   | (code, a) :: r, ob :: obr =>
-      (if (code =? 14)%Z && negb (list_eqb Z.eqb ob PANIC) && negb (list_eqb Z.eqb ob [(-1)%Z]) then
+      (if ((code =? 14)%Z || (code =? 15)%Z) && negb (list_eqb Z.eqb ob PANIC) && negb (list_eqb Z.eqb ob [(-1)%Z])
+          && negb (list_eqb Z.eqb ob [(-996)%Z]) then
          match ob with
          | l :: rest =>
              let L := Z.to_nat l in
